@@ -46,7 +46,14 @@ pub enum Op {
     Sign { sk: u8, msg: BytesSpec, ctx: BytesSpec, mode: u8, rnd: Seed32 },
     InternalSign { sk: u8, msg: BytesSpec, ctx: BytesSpec, rnd: Seed32 },
     Verify { pk: u8, sig: SigSrc, msg: BytesSpec, ctx: BytesSpec, mode: u8 },
-    InternalVerify { pk: u8, sig: SigSrc, msg: BytesSpec },
+    InternalVerify {
+        pk: u8,
+        sig: SigSrc,
+        msg: BytesSpec,
+        /// context argument of `_internal_verify` (any length)
+        #[serde(default)]
+        ctx: Option<BytesSpec>,
+    },
     SkIntoBytes(u8),
     PkIntoBytes(u8),
     GetPublicKey(u8),
@@ -94,7 +101,7 @@ fn op(max_msg: u32) -> impl Strategy<Value = Op> {
         5 => (any::<u8>(), gen::message(max_msg), any_ctx(), gen::mode(), gen::seed32()).prop_map(|(sk, msg, ctx, mode, rnd)| Op::Sign { sk, msg, ctx, mode, rnd }),
         1 => (any::<u8>(), gen::message(max_msg), any_ctx(), gen::seed32()).prop_map(|(sk, msg, ctx, rnd)| Op::InternalSign { sk, msg, ctx, rnd }),
         5 => (any::<u8>(), sig_src(), gen::message(max_msg), any_ctx(), gen::mode()).prop_map(|(pk, sig, msg, ctx, mode)| Op::Verify { pk, sig, msg, ctx, mode }),
-        1 => (any::<u8>(), sig_src(), gen::message(max_msg)).prop_map(|(pk, sig, msg)| Op::InternalVerify { pk, sig, msg }),
+        2 => (any::<u8>(), sig_src(), gen::message(max_msg), proptest::option::weighted(0.7, any_ctx())).prop_map(|(pk, sig, msg, ctx)| Op::InternalVerify { pk, sig, msg, ctx }),
         4 => any::<u8>().prop_map(Op::SkIntoBytes),
         2 => any::<u8>().prop_map(Op::PkIntoBytes),
         4 => any::<u8>().prop_map(Op::GetPublicKey),
@@ -228,10 +235,11 @@ pub fn check(root: &str, c: &Case, st: &mut Stats) -> CheckResult {
                 Op::Verify { .. } | Op::InternalVerify { .. } => {
                     let (pk, sig, msg, ctxb, modev, internal) = match o {
                         Op::Verify { pk, sig, msg, ctx, mode } => (pk, sig, msg, ctx.bytes(), gen::mode_of(*mode), false),
-                        Op::InternalVerify { pk, sig, msg } => (pk, sig, msg, vec![], Mode::Pure, true),
+                        Op::InternalVerify { pk, sig, msg, ctx } => (pk, sig, msg, ctx.as_ref().map(BytesSpec::bytes).unwrap_or_default(), Mode::Pure, true),
                         _ => unreachable!(),
                     };
                     let mut m = msg.bytes();
+                    let internal_ctx = ctxb.clone();
                     let mut cx = ctxb;
                     let mut md = modev;
                     // resolve signature bytes (and possibly the tuple that belongs to them)
@@ -288,7 +296,7 @@ pub fn check(root: &str, c: &Case, st: &mut Stats) -> CheckResult {
                         nonhonest_call |= !honest;
                         &**k
                     };
-                    let v = if internal { g("_internal_verify", || k.internal_verify(&m, &sbytes, &[]))? } else { g_verify(k, &m, &sbytes, &cx, md)? };
+                    let v = if internal { g("_internal_verify", || k.internal_verify(&m, &sbytes, &internal_ctx))? } else { g_verify(k, &m, &sbytes, &cx, md)? };
                     st.class(if v { "verify:true" } else { "verify:false" });
                 }
                 Op::SkIntoBytes(i) => {
